@@ -29,7 +29,9 @@ Definition ex_np : netpol :=
                         {| pp_proto := Some KUDP; pp_port := KName (b "dns"); pp_end := None |}] |}];
      np_egress := [];
      np_types := [TIngress] |}.
-Definition ex_cl : cluster := [(b "prod", [(b "team", b "b")]); (b "dev", [(b "team", b "a")])].
+Definition ex_cl : cluster :=
+  {| cl_ns := [(b "prod", [(b "team", b "b")]); (b "dev", [(b "team", b "a")])]; cl_sa := [] |}.
+Definition no_cl : cluster := {| cl_ns := []; cl_sa := [] |}.
 Definition ex_db := mkpod (b "prod") [(b "app", b "db")] [(b "dns", KUDP, 53)].
 Definition ex_fe := mkpod (b "dev") [(b "tier", b "fe")] [].
 Definition ex_conn (src : party) proto port : conn :=
@@ -67,7 +69,7 @@ Lemma policytypes_absent_refuted :
     np_ok true np = true /\                       (* well-formed in every other respect *)
     k8s_allows [np] cl c = false /\
     cal_allows [conv_np_v false np] (cparty_of cl (c_src c)) (cparty_of cl (c_dst c)) (c_proto c) (c_dport c) = true.
-Proof. exists w1_np, [], w1_conn. vm_compute. auto. Qed.
+Proof. exists w1_np, no_cl, w1_conn. vm_compute. auto. Qed.
 
 (* ------------------------------------------------------------------ refutation 2: Calico-reserved label prefix on a pod *)
 Definition w2_np : netpol :=
@@ -80,4 +82,4 @@ Lemma reserved_label_refuted :
   exists np cl c,
     k8s_allows [np] cl c = false /\
     forall infer, cal_allows [conv_np_v infer np] (cparty_of cl (c_src c)) (cparty_of cl (c_dst c)) (c_proto c) (c_dport c) = true.
-Proof. exists w2_np, [], w2_conn. split; [vm_compute; reflexivity|]. intros [|]; vm_compute; reflexivity. Qed.
+Proof. exists w2_np, no_cl, w2_conn. split; [vm_compute; reflexivity|]. intros [|]; vm_compute; reflexivity. Qed.
